@@ -54,7 +54,9 @@ def g_pcfg(pc):
 
 
 VALUES = [0, 1, 2, 3, 5, 6, -1, 0.0, 1.0, 2.0, 2.5, 0.5, -0.0, 5.0, 1e300, math.inf, -math.inf, math.nan, True, False,
-          'a', 'b', 'True', 'False', '1', '1.0', '', 'nan']
+          'a', 'b', 'True', 'False', '1', '1.0', '', 'nan',
+          # almost, but not, integers / feasible values / bounds (a tolerant comparison accepts them)
+          3.0000000001, 2.9999999999, 1.0000000000000002, 0.9999999999999999, 5.000000001, 1e-10, 2.5000000001, 6.0000000000001]
 
 
 def in_domain(pc, v):
@@ -88,13 +90,18 @@ def run(tier, seed):
               'contains() of every built parameter on 28 candidate values of all kinds; flat spaces with near-miss assignments (missing / '
               'extra keys, wrong kinds); conditional spaces walked by SequentialParameterBuilder (dfs and bfs) with random choices; '
               'add_* builders with invalid arguments; non-trivial = invalid definition, near-miss assignment or conditional walk')
-  rep.trusted = ['Coq 8.16.1 kernel + vm_compute', 'harness/translate/pcfactory.py (Python-ast translator of ParameterConfig.factory into a decision tree, helper bodies pinned, fail-closed)', 'exact rationals + {inf, nan} instead of IEEE doubles', 'harness/props/c16.py oracle']
+  rep.trusted = ['harness/translate/membership.py (Python-ast translator of assert_correct_type / _assert_feasible / contains, ParameterValue casts pinned, fail-closed)', 'Coq 8.16.1 kernel + vm_compute', 'harness/translate/pcfactory.py (Python-ast translator of ParameterConfig.factory into a decision tree, helper bodies pinned, fail-closed)', 'exact rationals + {inf, nan} instead of IEEE doubles', 'harness/props/c16.py oracle']
   tbroke = None
   try:
     from harness.translate import pcfactory
     C.write_gen('Gen/FactorySrc.v', pcfactory.translate(C.REPO))
   except Exception as e:  # pylint: disable=broad-except
     tbroke = 'translator harness/translate/pcfactory.py refused parameter_config.py: %r' % (e,)
+  try:
+    from harness.translate import membership
+    C.write_gen('Gen/MembershipSrc.v', membership.translate(C.REPO))
+  except Exception as e:  # pylint: disable=broad-except
+    tbroke = ((tbroke or '') + ' translator harness/translate/membership.py refused trial.py / parameter_config.py: %r' % (e,)).strip()
   C.standard_proof_step(rep, 'C16')
   broke = ((tbroke or '') + ' ' + (rep.proof_broken or '')).strip() or None
   concrete = False
@@ -508,10 +515,20 @@ def add_trial_check(rep, r, N):
   study = clients.Study(vizier_client.VizierClient(st.name, 'w0', serv))
   conc = False
   for v in [50.0, 0.0, 100.0, -1.0, 101.0, float('inf'), float('nan'), 'a', True]:
-    for params in ({'x': v}, {'x': v, 'y': 1.0}, {}):
+    for params, shape_ in (({'x': v}, 'plain'), ({'x': v, 'y': 1.0}, 'plain'), ({}, 'plain'), ({'x': v}, 'requested'), ({'x': v}, 'completed'),
+                           ({'x': v}, 'infeasible')):
       inside = params.keys() == {'x'} and not isinstance(v, str) and 0.0 <= float(v) <= 100.0
       try:
-        study.add_trial(vz.Trial(parameters=params))
+        # every kind of trial a user can hand to add_trial: fresh, marked as requested, already completed, completed infeasible
+        t_new = vz.Trial(parameters=params)
+        if shape_ == 'requested':
+          t_new.is_requested = True
+        elif shape_ == 'completed':
+          t_new.complete(vz.Measurement({'m1': 1.0}))
+        elif shape_ == 'infeasible':
+          t_new.complete(vz.Measurement(), infeasibility_reason='bad')
+        rep.count('add_trial_' + shape_)
+        study.add_trial(t_new)
         ok = True
       except ValueError:
         ok = False
@@ -522,7 +539,7 @@ def add_trial_check(rep, r, N):
       rep.case({'add_trial': repr(params), 'accepted': ok}, not inside)
       if ok is not None and ok != inside:
         conc = True
-        rep.violation('Study.add_trial %s a trial that is %s the search space' % ('accepted' if ok else 'refused', 'inside' if inside else 'outside'), {'parameters': repr(params)})
+        rep.violation('Study.add_trial %s a trial that is %s the search space' % ('accepted' if ok else 'refused', 'inside' if inside else 'outside'), {'parameters': repr(params), 'trial': shape_})
   # the same study name with another search space: after deletion and re-creation, on another server, with another client
   # object - membership must be decided against the space the study has now
   def mk_space(kind):
